@@ -67,6 +67,26 @@ def proportional(weights, sizes, remains, minimum=0):
     return True, worst <= tot, Fraction(worst, tot), [Fraction(remains * w, tot) for w in weights]
 
 
+def stepwise_within_half(weights, sizes, remains, minimum, order):
+    """Classification aid for known findings (never used to accept or reject a result): True when the
+    sizes are what a *sequential* division gives - visiting the items in `order`, each one gets its
+    share of what is still left (left * w / weight still left) to within half a unit, or exactly
+    `minimum` when that share is smaller.  This is the local form of the proportionality clause that
+    DESIGN section 6 proves for Columns.column_widths / Pile.get_item_rows; a result that is globally off by
+    more than one although every step is locally right is the rounding cascade of DESIGN section 7-k, any
+    other result is something else."""
+    left, wleft = remains, sum(weights)
+    for i in order:
+        if wleft <= 0:
+            return False
+        share = Fraction(left * weights[i], wleft)
+        if not (abs(sizes[i] - share) * 2 <= 1 or (sizes[i] == minimum and share < minimum)):
+            return False
+        left -= sizes[i]
+        wleft -= weights[i]
+    return left == 0
+
+
 def columns_proportional(specs, dividechars, min_width, maxcol, widths):
     """Clause (f) over the weighted columns that are shown.  -> (applicable, ok, deviation, ideals, indexes)"""
     n = len(specs)
@@ -87,6 +107,28 @@ def pile_proportional(specs, own, maxrow, rows):
     remains = max(maxrow - sum(own[i] for i, (k, _a) in enumerate(specs) if k != "weight"), 0)
     app, ok, dev, ideals = proportional([specs[i][1] for i in wv], [rows[i] for i in wv], remains, 0)
     return app, ok, dev, ideals, wv
+
+
+def columns_stepwise(specs, dividechars, min_width, maxcol, widths):
+    """stepwise_within_half for the weighted columns that are shown, visited by ascending weight
+    (the order Columns.column_widths documents: 'sorted(weighted)')."""
+    n = len(specs)
+    ws = list(widths) + [0] * (n - len(widths))
+    vis = [i for i in range(n) if ws[i] > 0]
+    wv = [i for i in vis if specs[i][0] == "weight"]
+    remains = maxcol - dividechars * (len(vis) - 1) - sum(ws[i] for i in vis if specs[i][0] != "weight")
+    weights = [specs[i][1] for i in wv]
+    order = sorted(range(len(wv)), key=lambda j: (weights[j], wv[j]))
+    return stepwise_within_half(weights, [ws[i] for i in wv], remains, min_width, order)
+
+
+def pile_stepwise(specs, own, maxrow, rows):
+    """stepwise_within_half for the weighted items of a box Pile, visited top to bottom."""
+    wv = [i for i, (k, _a) in enumerate(specs) if k == "weight"]
+    if len(rows) != len(specs):
+        return False
+    remains = max(maxrow - sum(own[i] for i, (k, _a) in enumerate(specs) if k != "weight"), 0)
+    return stepwise_within_half([specs[i][1] for i in wv], [rows[i] for i in wv], remains, 0, range(len(wv)))
 
 
 def judge_pile_rows(specs, own, maxrow, rows):
